@@ -29,8 +29,9 @@ MANIFEST = {
     "note": "Trusted: numpy float64 arithmetic, vlib.ref.bspline_basis / bspline_eval_1d (self-tested: partition of unity, "
             "cubic reproduction, derivative consistency), vlib.ref.GridModel for control point placement. CPU only; float32 "
             "and float64; third derivatives at knots are compared with the right limit (half-open interval convention of "
-            "the weight table); subdivide_cubic_bspline and spatial_derivatives reject 1-D inputs with a ValueError, so those "
-            "two are exercised for D in {2,3} (1-D subdivision through a singleton second axis and through a 1-D FFD).",
+            "the weight table); spatial_derivatives documents 'at least 4-dimensional' input and is exercised for D in {2,3}; "
+            "cubic_bspline_control_point_grid is exercised for D in {2,3} (world maps of 1-D Grids are not supported by deepali); "
+            "1-D FreeFormDeformation is observed through its buffer u only (SpatialTransform.disp() dispatches on tensor rank).",
     "technique": "property-based testing (Hypothesis) with closed-form and float64 reference-model oracles, exhaustive "
                  "enumeration of finite sub-domains, and differential/metamorphic relations between the two algorithms",
 }
@@ -41,6 +42,8 @@ ASSUMPTIONS = [
     "the third derivative at a knot is the right limit",
     "the transposed-convolution algorithm uses a float32 kernel for every dtype (kernels.cubic_bspline1d), hence eps32 bounds on that path",
     "FreeFormDeformation coefficients/displacements are in normalised cube coordinates of an align_corners=True grid",
+    "a subdivided axis has >= 2 coefficients; a spline domain exists only on axes with >= 4 coefficients",
+    "control point k of cubic_bspline_control_point_grid sits at image index (k - 1) * stride (one point before the origin, stride samples apart)",
 ]
 
 K = 64.0
@@ -74,8 +77,17 @@ def ref_eval(coef: np.ndarray, coords_t, derivs_t=None, axes=None) -> np.ndarray
     for axis, u, d in zip(axes, coords_t, derivs_t):
         u = np.asarray(u, dtype=np.float64)
         k = np.floor(u).astype(np.int64)
-        if len(u) and (k.min() < 1 or k.max() + 2 > out.shape[axis] - 1):
-            raise AssertionError(f"reference evaluation outside the spline domain: {u.min()}..{u.max()} for {out.shape[axis]} coefficients")
+        n = out.shape[axis]
+        if len(u):
+            # support of a sample: coefficients k-1 .. k+2; at a knot (u == k) the weight of k+2 is exactly 0 for orders < 3
+            need = np.where((u == k) & (int(d) < 3), k + 1, k + 2)
+            if k.min() < 1 or need.max() > n - 1:
+                raise Violation("control_grid_insufficient",
+                                f"{n} coefficients do not support samples at lattice coordinates {u.min():g}..{u.max():g} (derivative order {d})")
+            if k.max() + 2 > n - 1:
+                pad = [(0, 0)] * out.ndim
+                pad[axis] = (0, 1)
+                out = np.pad(out, pad)
         out = ref.bspline_eval_1d(out, u, int(d), axis=axis)
     return out
 
@@ -158,7 +170,8 @@ def weights_cases(draw):
         D = 1
     return {
         "stride": draw(st.lists(st.integers(1, MAX_STRIDE), min_size=D, max_size=D)),
-        "deriv": draw(st.lists(st.integers(0, 3), min_size=D, max_size=D)),
+        # bspline_interpolation_weights(degree=3, ...) has no derivative argument
+        "deriv": [0] if form == "generic" else draw(st.lists(st.integers(0, 3), min_size=D, max_size=D)),
         "dtype": draw(st.sampled_from(["float32", "float64", None])),
         "form": form,
     }
@@ -196,8 +209,6 @@ def run_weights(case):
     if form == "scalar":
         res = [B.cubic_bspline_interpolation_weights(strides[0], derivs[0], **kw)]
     elif form == "generic":
-        if derivs[0] != 0:
-            raise Skip("bspline_interpolation_weights has no derivative argument")
         res = [B.bspline_interpolation_weights(3, strides[0], **kw)]
     elif form == "scalar_stride":
         strides = [strides[0]] * D
@@ -326,11 +337,14 @@ def agree_cases(draw):
         "key": draw(st.integers(0, 10 ** 6)), "amp": draw(st.sampled_from([1.0, 1.0, 0.01, 100.0])),
         "arg": draw(st.sampled_from(["size", "shape"])),
         "extra": draw(st.lists(st.integers(0, 2), min_size=D, max_size=D)),
+        # precomputed per-axis kernels in the documented order (kx, ...), as BSplineTransform passes them
+        "kernel": draw(st.sampled_from(["none", "none", "explicit"])),
     }
 
 
 def run_agree(case):
     from deepali.core import bspline as B
+    from deepali.core import kernels as KN
 
     D, size, stride = case["D"], list(case["size"]), list(case["stride"])
     dt = tdtype(case["dtype"])
@@ -342,8 +356,12 @@ def run_agree(case):
     coef = torch.tensor(cnp, dtype=dt)
     cnp = coef.double().numpy()
     kw = out_kwargs(case, size)
-    out_a = B.evaluate_cubic_bspline(coef, stride=sarg, **kw)
-    out_b = B.evaluate_cubic_bspline(coef, stride=sarg, transpose=True, **kw)
+    kw_a, kw_b = dict(kw), dict(kw)
+    if case.get("kernel") == "explicit":
+        kw_a["kernel"] = B.cubic_bspline_interpolation_weights(list(stride), dtype=dt)
+        kw_b["kernel"] = [KN.cubic_bspline1d(s) for s in stride]
+    out_a = B.evaluate_cubic_bspline(coef, stride=sarg, **kw_a)
+    out_b = B.evaluate_cubic_bspline(coef, stride=sarg, transpose=True, **kw_b)
     want_t = (case["N"], case["C"]) + tuple(reversed(size))
     for name, o in (("default", out_a), ("transposed", out_b)):
         if tuple(o.shape) != want_t:
@@ -357,7 +375,7 @@ def run_agree(case):
     r = max(r, check_close(out_a, expect, K * eps_of(dt) * mag, "default_vs_reference", f"default algorithm vs float64 reference, size={size} stride={stride}"))
     nd = any(n % s for n, s in zip(size, stride))
     return {"ratio": r, "nontrivial": nd or D >= 2,
-            "labels": [f"D={D}", case["dtype"], f"N={case['N']}", f"C={case['C']}"] + divisibility_labels(size, stride)}
+            "labels": [f"D={D}", case["dtype"], f"N={case['N']}", f"C={case['C']}", f"kernel={case.get('kernel', 'none')}"] + divisibility_labels(size, stride)}
 
 
 # ---------------------------------------------------------------------------------------
@@ -667,7 +685,7 @@ def run_control_grid(case):
                         f"origin of control point grid (stride {stride}) vs image index -stride")
     sp_bound = K * EPS32 * float(np.max(m.s * s))
     worst = max(worst, check_close(cg.spacing(), m.s * s, sp_bound, "control_grid_spacing",
-                                   f"control point spacing for image spacing {list(m.s)} and stride {stride}"))
+                                   f"control point spacing for image spacing {[float(v) for v in m.s]} and stride {stride}"))
     worst = max(worst, check_close(cg.direction(), m.R, K * EPS32, "control_grid_direction", "direction cosines of control point grid"))
     got = cg.index_to_world(torch.tensor(corners, dtype=torch.float64))
     worst = max(worst, check_close(got, expect, bound, "control_grid_points",
@@ -675,7 +693,7 @@ def run_control_grid(case):
     # two control points after the last image sample are inside the lattice, i.e. the lattice covers the image
     last = (np.array(g["size"], dtype=np.float64) - 1.0) / s + 1.0  # lattice coordinate of the last image sample
     if np.any(np.floor(last) + 2 > n - 1 + (last == np.floor(last))):
-        raise Violation("control_grid_coverage", f"lattice of size {want} does not support the last image sample at lattice coordinate {last}")
+        raise Violation("control_grid_coverage", f"lattice of size {want} does not support the last image sample at lattice coordinate {[float(v) for v in last]}")
     return {"ratio": worst, "nontrivial": max(stride) > 1 and g.get("kind") not in ("identity",),
             "labels": [f"D={D}", f"kind={g.get('kind')}"] + divisibility_labels(g["size"], stride)}
 
@@ -824,33 +842,33 @@ FACETS = [
     Facet("weights", run_weights, strategy=weights_cases,
           rule="exhaustive: stride 1..16 x derivative 0..3 x dtype {f64, f32, default}; generated: sequence/scalar argument forms and "
                "bspline_interpolation_weights(3, s); non-trivial = some stride > 1",
-          quick=150, thorough=1500, shards=4, enumerate=weights_enumeration, exhaustive_tiers=("quick", "thorough")),
+          quick=300, thorough=2000, shards=4, enumerate=weights_enumeration, exhaustive_tiers=("quick", "thorough")),
     Facet("linear_precision", run_linear, strategy=linear_cases,
           rule="exhaustive: every 1-D size 1..24 x stride 1..16 x transpose; generated: D 1..3, per-axis stride 1..16, size 1..24 (1..16 for D=3), "
                "N,C 1..3, f32/f64, size/shape/none, up to 2 surplus control points; non-trivial = size % stride != 0 on some axis and a != 0",
-          quick=500, thorough=12000, shards=16, quick_shards=2, enumerate=linear_enumeration, exhaustive_tiers=("quick", "thorough")),
+          quick=1200, thorough=20000, shards=16, quick_shards=2, enumerate=linear_enumeration, exhaustive_tiers=("quick", "thorough")),
     Facet("algorithms_agree", run_agree, strategy=agree_cases,
-          rule="hash-noise coefficients (amplitude 0.01/1/100), D 1..3, N,C 1..3, f32/f64; default vs transpose=True and both vs float64 reference; "
+          rule="hash-noise coefficients (amplitude 0.01/1/100), D 1..3, N,C 1..3, f32/f64, kernels computed or passed explicitly; default vs transpose=True and both vs float64 reference; "
                "non-trivial = D >= 2 or non-divisible size/stride",
-          quick=350, thorough=8000, shards=16, quick_shards=2),
+          quick=800, thorough=12000, shards=16, quick_shards=2),
     Facet("derivatives", run_deriv, strategy=deriv_cases,
           rule="hash-noise coefficients on 4..8 control points per axis, stride 1..16, per-axis derivative order 0..3 (evaluate_cubic_bspline) "
                "or 1..3 sorted keys of order <= 4 with spacing none/scalar/vector/per-batch (spatial_derivatives); non-trivial = derivative on some axis and stride > 1",
-          quick=400, thorough=8000, shards=16, quick_shards=2),
+          quick=900, thorough=16000, shards=16, quick_shards=2),
     Facet("subdivide", run_subdivide, strategy=subdivide_cases,
           rule="D 2..3 (1-D through singleton axes), 1..3 rounds over all or a subset of dims (int/str form), noise/linear coefficients; "
                "reference evaluation of refined vs original coefficients and deepali evaluation at stride s vs s 2^r; non-trivial = noise content with a spline domain",
-          quick=250, thorough=5000, shards=8, quick_shards=2),
+          quick=500, thorough=9000, shards=8, quick_shards=2),
     Facet("control_grid", run_control_grid, strategy=control_grid_cases,
           rule="image grids D 1..3 (rotated/anisotropic/reflected from vlib.gen.grids), size 1..24, stride 1..16; control point k must sit at image index (k-1) stride; "
                "non-trivial = stride > 1 and non-identity direction",
-          quick=250, thorough=4000, shards=8),
+          quick=300, thorough=4000, shards=8),
     Facet("ffd_subdivide", run_ffd_subdivide, strategy=ffd_subdivide_cases,
           rule="FFD on grids D 1..3, size 2..10, stride 1..16, N 1..3, both algorithms, 1-2 refinements of all or some dims via grid_()/grid(); disp() compared at "
                "coincident samples and at every new sample against the float64 reference of the original spline; non-trivial = D >= 2 or non-divisible",
-          quick=250, thorough=5000, shards=8, quick_shards=2),
+          quick=500, thorough=8000, shards=8, quick_shards=2),
     Facet("ffd_linear", run_ffd_linear, strategy=ffd_linear_cases,
           rule="FFD on grids D 1..3, size 2..24, stride 1..16, coefficients M x_k + b in normalised coordinates, N 1..3 (scaled copies), both algorithms; "
                "non-trivial = non-divisible, off-diagonal M, stride > 1",
-          quick=300, thorough=6000, shards=8, quick_shards=2),
+          quick=600, thorough=10000, shards=8, quick_shards=2),
 ]
